@@ -680,7 +680,7 @@ func (e *Engine) findDigitPrefilter(haystack []byte) *Match {
 	state := e.getSearchState()
 	defer e.putSearchState(state)
 
-	for pos < len(haystack) {
+	if pos < len(haystack) {
 		// Use SIMD to find next digit position
 		digitPos := e.digitPrefilter.Find(haystack, pos)
 		if digitPos < 0 {
@@ -707,8 +707,9 @@ func (e *Engine) findDigitPrefilter(haystack []byte) *Match {
 			}
 		}
 
-		// No match at this digit position, continue searching
-		pos = digitPos + 1
+		// Both searches above are unanchored (leftmost match at or after digitPos):
+		// trying the following digits as well would be O(n) per digit, O(n^2) in total.
+		return nil
 	}
 
 	return nil
@@ -727,7 +728,7 @@ func (e *Engine) findDigitPrefilterAt(haystack []byte, at int) *Match {
 	state := e.getSearchState()
 	defer e.putSearchState(state)
 
-	for pos < len(haystack) {
+	if pos < len(haystack) {
 		digitPos := e.digitPrefilter.Find(haystack, pos)
 		if digitPos < 0 {
 			return nil
@@ -750,7 +751,8 @@ func (e *Engine) findDigitPrefilterAt(haystack []byte, at int) *Match {
 			}
 		}
 
-		pos = digitPos + 1
+		// Unanchored searches, see findDigitPrefilter: nothing at or after digitPos.
+		return nil
 	}
 
 	return nil
